@@ -2,6 +2,6 @@
 # run from a /verif snapshot: setup then thorough tier of every check, two at a time
 bash vp/setup.sh >/dev/null 2>&1
 run() { VP_GEN=/tmp/gen_th_$1 python3 vp/check.py $1 --tier thorough 2>&1 | grep -E "^OK|VIOLATION|UNDECIDED|WEAK|FALSE|KNOWN|sensitivity" | cut -c1-260 | sed "s/^/[$1] /"; }
-for pair in "C01 C11" "C02 C15" "C03 C17" "C04 C18" "C05 C19" "C06" "C07" "C08" "C09" "C10" "C12" "C16"; do
+for pair in "C01 C11" "C02 C15" "C03 C17" "C04 C18" "C05 C19" "C06 C14" "C07" "C08" "C09" "C10" "C12" "C16"; do
   for p in $pair; do run $p & done; wait
 done
